@@ -105,6 +105,14 @@ func runMemberOpt(c *core.Ctx, mb member, rules map[string]bool, budget int, siz
 			if fm != nil {
 				c.Counts["skeleton_files"]++
 				c.Counts["unmarshal_methods"] += len(fm.Methods)
+				// vacuity guard, whatever the rule set: the first property of the root must have its field somewhere in the file;
+				// otherwise the oracles would be comparing nothing with nothing (a dropped property, or a mis-executed interpreter)
+				if sp := w.Spec; sp != nil && sp.Kind == "object" && len(sp.Props) > 0 && len(sp.AnyOf) == 0 && len(sp.AllOf) == 0 && len(mb.cfg.Tags) > 0 {
+					if S, _ := fm.FindFieldText(sp.Props[0].Text(), mb.cfg.Tags[0]); S == nil {
+						issues = append(issues, fam.Issue{Rule: "A-UNDECIDED", Construct: "the emitted file has no field for the first property of the root",
+							Msg: "no struct field carries the name of property " + sp.Props[0].Label + ": the property was dropped by the generator or the interpretation is wrong; nothing can be certified on this member"})
+					}
+				}
 				issues = append(issues, check(w, fm)...)
 			}
 		}
